@@ -94,6 +94,7 @@ func apply(s orb.Simplifier, in []orb.Point, ring bool) []orb.Point {
 type info struct {
 	nontrivial map[string]bool // per algorithm: a vertex was removed and an interior vertex kept
 	model      bool            // the reference models applied (distinct vertices)
+	scaled     bool            // the rescaled twin of the case was judged too
 }
 
 func (i *info) note(algo string, in, out []orb.Point) {
@@ -166,6 +167,9 @@ type LineCase struct {
 	TA2  gen.F   `json:"ta2"`
 	Keep int     `json:"keep"` // 0 = default minimum, else >= 2
 	Fam  string  `json:"family,omitempty"`
+	// Scale k != 0: the case is also judged multiplied by 2^k (distance
+	// thresholds by 2^k, area thresholds by 4^k); same vertices must be kept.
+	Scale int `json:"scale,omitempty"`
 }
 
 func (c LineCase) pts() []orb.Point {
@@ -175,8 +179,95 @@ func (c LineCase) pts() []orb.Point {
 	return gen.OrbPts(c.Pts)
 }
 
+// lineOuts are the outputs of one line case, kept for the rescaling comparison.
+type lineOuts struct {
+	names []string
+	outs  [][]orb.Point
+}
+
+func (o *lineOuts) add(name string, out []orb.Point) {
+	o.names = append(o.names, name)
+	o.outs = append(o.outs, out)
+}
+
+const (
+	minMag = 0x1p-200 // magnitudes for which every intermediate of the simplifiers stays a normal float64 after rescaling by 2^+-60
+	maxMag = 0x1p+200
+)
+
+func magOK(v float64) bool { return v == 0 || (math.Abs(v) >= minMag && math.Abs(v) <= maxMag) }
+
+// rescalable: multiplying the case by 2^k is exact and neither the original nor
+// the rescaled case can overflow or underflow inside the simplifiers (all
+// non-zero coordinates, hence coordinate differences, and thresholds lie in
+// [2^-200, 2^200]; thresholds may also be 0 or +Inf).
+func rescalable(c LineCase) bool {
+	if c.Scale == 0 || c.Scale < -60 || c.Scale > 60 || (c.DF != "planar" && c.DF != "manhattan") {
+		return false
+	}
+	for _, p := range c.Pts {
+		if !magOK(float64(p[0])) || !magOK(float64(p[1])) {
+			return false
+		}
+	}
+	for _, t := range []gen.F{c.TD1, c.TD2, c.TR, c.TA1, c.TA2} {
+		if !magOK(float64(t)) && !math.IsInf(float64(t), 1) {
+			return false
+		}
+	}
+	return true
+}
+
+// rescaled multiplies the vertices and distance thresholds by 2^k and the area
+// thresholds by 4^k (exact).
+func rescaled(c LineCase) LineCase {
+	f := math.Ldexp(1, c.Scale)
+	sc := c
+	sc.Scale = 0
+	sc.Pts = make([]gen.P, len(c.Pts))
+	for i, p := range c.Pts {
+		sc.Pts[i] = gen.P{gen.F(float64(p[0]) * f), gen.F(float64(p[1]) * f)}
+	}
+	sc.TD1, sc.TD2, sc.TR = gen.F(float64(c.TD1)*f), gen.F(float64(c.TD2)*f), gen.F(float64(c.TR)*f)
+	sc.TA1, sc.TA2 = gen.F(float64(c.TA1)*f*f), gen.F(float64(c.TA2)*f*f)
+	return sc
+}
+
+// checkLine judges the case and, when it carries a scale exponent k, also the
+// case multiplied by 2^k (thresholds by 2^k, area thresholds by 4^k): all
+// oracles must hold on the rescaled case (their tolerances are relative to the
+// case) and every simplifier must keep exactly the same vertices.
 func checkLine(c LineCase) (info, error) {
+	inf, base, err := checkLineBase(c)
+	if err != nil || !rescalable(c) {
+		return inf, err
+	}
+	inf.scaled = true
+	sc := rescaled(c)
+	_, so, err := checkLineBase(sc)
+	if err != nil {
+		return inf, fmt.Errorf("rescaled by 2^%d: %v", c.Scale, err)
+	}
+	f := math.Ldexp(1, c.Scale)
+	for i := range base.outs {
+		want := make([]orb.Point, len(base.outs[i]))
+		for j, p := range base.outs[i] {
+			want[j] = orb.Point{p[0] * f, p[1] * f}
+		}
+		if i >= len(so.outs) || !sameSeq(so.outs[i], want) {
+			var got []orb.Point
+			if i < len(so.outs) {
+				got = so.outs[i]
+			}
+			return inf, fmt.Errorf("%s is not scale invariant: multiplying the input and the threshold by 2^%d (area threshold by 4^%d) changes which vertices are kept: in=%v kept=%v, rescaled in=%v kept=%v", base.names[i], c.Scale, c.Scale, short(c.pts()), short(base.outs[i]), short(sc.pts()), short(got))
+		}
+	}
+	return inf, nil
+}
+
+func checkLineBase(c LineCase) (info, *lineOuts, error) {
 	var inf info
+	outs := &lineOuts{}
 	in := c.pts()
 	n := len(in)
 	ring := c.Ring
@@ -187,87 +278,97 @@ func checkLine(c LineCase) (info, error) {
 	// Douglas-Peucker
 	dp1, err := checkSpecLeaf(Spec{Algo: "dp", T: c.TD1}, in, ring, &inf)
 	if err != nil {
-		return inf, err
+		return inf, outs, err
 	}
 	dp2, err := checkSpecLeaf(Spec{Algo: "dp", T: c.TD2}, in, ring, &inf)
 	if err != nil {
-		return inf, err
+		return inf, outs, err
 	}
+	outs.add(fmt.Sprintf("DouglasPeucker(%v)", td1), dp1)
+	outs.add(fmt.Sprintf("DouglasPeucker(%v)", td2), dp2)
 	if td1 <= td2 && !isSubseq(dp2, dp1) {
-		return inf, fmt.Errorf("DouglasPeucker not monotone: threshold %v keeps a vertex that %v dropped: in=%v out(%v)=%v out(%v)=%v", td2, td1, short(in), td1, short(dp1), td2, short(dp2))
+		return inf, outs, fmt.Errorf("DouglasPeucker not monotone: threshold %v keeps a vertex that %v dropped: in=%v out(%v)=%v out(%v)=%v", td2, td1, short(in), td1, short(dp1), td2, short(dp2))
 	}
 	if distinct {
 		if err := checkDPModel(fmt.Sprintf("DouglasPeucker(%v) model", td1), in, indicesOf(in, dp1), td1); err != nil {
-			return inf, fmt.Errorf("%v: in=%v out=%v", err, short(in), short(dp1))
+			return inf, outs, fmt.Errorf("%v: in=%v out=%v", err, short(in), short(dp1))
 		}
 		if err := checkDPModel(fmt.Sprintf("DouglasPeucker(%v) model", td2), in, indicesOf(in, dp2), td2); err != nil {
-			return inf, fmt.Errorf("%v: in=%v out=%v", err, short(in), short(dp2))
+			return inf, outs, fmt.Errorf("%v: in=%v out=%v", err, short(in), short(dp2))
 		}
 	}
 
 	// radial
-	if _, err := checkSpecLeaf(Spec{Algo: "radial", T: c.TR, DF: c.DF}, in, ring, &inf); err != nil {
-		return inf, err
+	rad, err := checkSpecLeaf(Spec{Algo: "radial", T: c.TR, DF: c.DF}, in, ring, &inf)
+	if err != nil {
+		return inf, outs, err
 	}
+	outs.add(fmt.Sprintf("Radial(%s,%v)", c.DF, float64(c.TR)), rad)
 
 	// Visvalingam
 	v1, err := checkSpecLeaf(Spec{Algo: "visthr", T: c.TA1}, in, ring, &inf)
 	if err != nil {
-		return inf, err
+		return inf, outs, err
 	}
 	v2, err := checkSpecLeaf(Spec{Algo: "visthr", T: c.TA2}, in, ring, &inf)
 	if err != nil {
-		return inf, err
+		return inf, outs, err
 	}
 	if ta1 <= ta2 && !isSubseq(v2, v1) {
-		return inf, fmt.Errorf("VisvalingamThreshold not monotone: threshold %v keeps a vertex that %v dropped: in=%v out(%v)=%v out(%v)=%v", ta2, ta1, short(in), ta1, short(v1), ta2, short(v2))
+		return inf, outs, fmt.Errorf("VisvalingamThreshold not monotone: threshold %v keeps a vertex that %v dropped: in=%v out(%v)=%v out(%v)=%v", ta2, ta1, short(in), ta1, short(v1), ta2, short(v2))
 	}
-	if _, err := checkSpecLeaf(Spec{Algo: "viskeep", Keep: c.Keep}, in, ring, &inf); err != nil {
-		return inf, err
+	vk, err := checkSpecLeaf(Spec{Algo: "viskeep", Keep: c.Keep}, in, ring, &inf)
+	if err != nil {
+		return inf, outs, err
 	}
 	c1, err := checkSpecLeaf(Spec{Algo: "vis", T: c.TA1, Keep: c.Keep}, in, ring, &inf)
 	if err != nil {
-		return inf, err
+		return inf, outs, err
 	}
 	c2, err := checkSpecLeaf(Spec{Algo: "vis", T: c.TA2, Keep: c.Keep}, in, ring, &inf)
 	if err != nil {
-		return inf, err
+		return inf, outs, err
 	}
+	outs.add(fmt.Sprintf("VisvalingamThreshold(%v)", ta1), v1)
+	outs.add(fmt.Sprintf("VisvalingamThreshold(%v)", ta2), v2)
+	outs.add(fmt.Sprintf("VisvalingamKeep(%d)", c.Keep), vk)
+	outs.add(fmt.Sprintf("Visvalingam(%v,%d)", ta1, c.Keep), c1)
+	outs.add(fmt.Sprintf("Visvalingam(%v,%d)", ta2, c.Keep), c2)
 	if ta1 <= ta2 && !isSubseq(c2, c1) {
-		return inf, fmt.Errorf("Visvalingam(t,%d) not monotone: threshold %v keeps a vertex that %v dropped: in=%v out(%v)=%v out(%v)=%v", c.Keep, ta2, ta1, short(in), ta1, short(c1), ta2, short(c2))
+		return inf, outs, fmt.Errorf("Visvalingam(t,%d) not monotone: threshold %v keeps a vertex that %v dropped: in=%v out(%v)=%v out(%v)=%v", c.Keep, ta2, ta1, short(in), ta1, short(c1), ta2, short(c2))
 	}
 	if distinct {
 		seq := map[int][]orb.Point{n: in}
 		for k := n - 1; k >= 2; k-- {
 			o, err := checkSpecLeaf(Spec{Algo: "viskeep", Keep: k}, in, ring, &inf)
 			if err != nil {
-				return inf, err
+				return inf, outs, err
 			}
 			seq[k] = o
 		}
 		es, err := visOrder("Visvalingam model", in, seq)
 		if err != nil {
-			return inf, fmt.Errorf("%v: in=%v", err, short(in))
+			return inf, outs, fmt.Errorf("%v: in=%v", err, short(in))
 		}
 		dm := defaultMin(ring, in)
 		if err := checkVisThreshold(fmt.Sprintf("VisvalingamThreshold(%v) model", ta1), in, v1, seq, es, ta1, dm); err != nil {
-			return inf, fmt.Errorf("%v: in=%v", err, short(in))
+			return inf, outs, fmt.Errorf("%v: in=%v", err, short(in))
 		}
 		if err := checkVisThreshold(fmt.Sprintf("VisvalingamThreshold(%v) model", ta2), in, v2, seq, es, ta2, dm); err != nil {
-			return inf, fmt.Errorf("%v: in=%v", err, short(in))
+			return inf, outs, fmt.Errorf("%v: in=%v", err, short(in))
 		}
 		km := c.Keep
 		if km == 0 {
 			km = dm
 		}
 		if err := checkVisThreshold(fmt.Sprintf("Visvalingam(%v,%d) model", ta1, c.Keep), in, c1, seq, es, ta1, km); err != nil {
-			return inf, fmt.Errorf("%v: in=%v", err, short(in))
+			return inf, outs, fmt.Errorf("%v: in=%v", err, short(in))
 		}
 		if err := checkVisThreshold(fmt.Sprintf("Visvalingam(%v,%d) model", ta2, c.Keep), in, c2, seq, es, ta2, km); err != nil {
-			return inf, fmt.Errorf("%v: in=%v", err, short(in))
+			return inf, outs, fmt.Errorf("%v: in=%v", err, short(in))
 		}
 	}
-	return inf, nil
+	return inf, outs, nil
 }
 
 func checkCase(c LineCase) error {
@@ -940,9 +1041,11 @@ func genKeep(t *rapid.T, n int) int {
 
 func assumptions() {
 	stats.Assume("coordinates are finite with |v| <= 1e100 (lattice, general position in [-10,10], spiky, UTM-like, web-mercator metres up to 2.1e7 with metre spacing, 1e8..1e100 scaled shapes, lon/lat; beyond ~1e154 triangle areas overflow and VisvalingamKeep panics: out of domain); thresholds are >= 0 (including +Inf and MaxFloat64), never NaN or negative; minimum counts are 0 (default) or >= 2")
-	stats.Assume("tolerances: distances t(1+1e-9)+1e-9(1+max|coordinate|); doubled areas a(1+1e-9)+1e-9 x diameter^2; the radial clause is exact (the check calls the same distance function as the simplifier)")
+	stats.Assume("tolerances are relative to the case: distances t(1+1e-9) + 1e-9 x extent (bounding-box diagonal) + 32 eps x max|coordinate|; doubled areas a(1+1e-9)+1e-9 x diameter^2; the radial clause is exact (the check calls the same distance function as the simplifier)")
 	stats.Assume("extensions beyond the literal statement, from the package documentation: (a) Douglas-Peucker keeps a vertex only where the recursion must split (farthest vertex beyond the threshold), (b) radial drops a vertex only when it is within the threshold of the last kept vertex, (c) Visvalingam removes vertices in order of smallest effective area (area raised to that of a removed neighbour) and stops at the first effective area above the threshold; (a) and (c) are judged only on lines whose vertices are pairwise distinct (except the closing vertex), borderline values and ties are accepted either way")
 	stats.Assume("radial distance functions: planar.Distance, geo.Distance (lon/lat inputs only), a Manhattan distance defined in the harness")
+	stats.Assume("float64 range: distances below 1e-150 and doubled areas below 1e-300 count as zero (their squares / products underflow: DouglasPeucker(0) drops a vertex 6e-163 away from the chord), |v| <= 1e100 (beyond ~1e154 they overflow)")
+	stats.Assume("rescaling: a third of the line cases (and half of the enumerated ones) are also judged multiplied by 2^k, k in -60..60 (distance thresholds by 2^k, area thresholds by 4^k, planar or Manhattan distance): every oracle must hold on the twin and every simplifier must keep exactly the same vertices; only cases whose non-zero magnitudes and thresholds lie in 2^-200..2^200 (or thresholds 0 / +Inf) are rescaled, so that no intermediate can overflow or underflow")
 	stats.Assume("history: a simplifier value is used from one goroutine at a time; every result of a reused value must be bit-equal to the result of a fresh value with the same parameters, and Threshold / ToKeep / DistanceFunc must be unchanged by use")
 	stats.Assume("generic entry point: an empty or nil MultiPoint may come back as nil or as itself; a polygon without rings inside a multi-polygon may be dropped or kept; collection members are never nil interfaces")
 }
@@ -991,6 +1094,41 @@ func TestPropLine(t *testing.T) {
 		}
 		c.TA1, c.TA2 = gen.F(x), gen.F(y)
 		c.Keep = genKeep(rt, len(pts))
+		// exact power-of-two rescaling twin (scale vacuity: an absolute epsilon in
+		// a simplifier, or an absolute tolerance in this check, shows up here)
+		if rapid.IntRange(0, 2).Draw(rt, "rescale") == 1 {
+			c.Scale = rapid.IntRange(-60, 60).Draw(rt, "k")
+			// thresholds that cannot be rescaled exactly become +Inf (huge) or 0 (subnormal range)
+			for _, t := range []*gen.F{&c.TD1, &c.TD2, &c.TR, &c.TA1, &c.TA2} {
+				if v := float64(*t); !magOK(v) && !math.IsInf(v, 1) {
+					if v > 1 {
+						*t = gen.F(math.Inf(1))
+					} else {
+						*t = 0
+					}
+				}
+			}
+			if c.TD1 > c.TD2 {
+				c.TD1, c.TD2 = c.TD2, c.TD1
+			}
+			if c.TA1 > c.TA2 {
+				c.TA1, c.TA2 = c.TA2, c.TA1
+			}
+			if c.Scale != 0 && !rescalable(c) {
+				stats.Class("rescale: skipped (geo distance or a coordinate magnitude outside 2^-200..2^200)")
+				c.Scale = 0
+			}
+		}
+		switch {
+		case c.Scale < -30:
+			stats.Class("rescale: 2^-60..2^-31")
+		case c.Scale < 0:
+			stats.Class("rescale: 2^-30..2^-1")
+		case c.Scale > 30:
+			stats.Class("rescale: 2^31..2^60")
+		case c.Scale > 0:
+			stats.Class("rescale: 2^1..2^30")
+		}
 
 		stats.Class("family:" + fam)
 		if c.Ring {
@@ -1321,6 +1459,7 @@ func TestPropHistory(t *testing.T) {
 var enumTD = []float64{0, 0.5, math.Sqrt2 / 2, 1, math.Sqrt2, 2, 3}
 var enumTA = []float64{0, 0.5, 1, 1.5, 2, 4}
 var enumKeep = []int{0, 2, 3, 4, 5, 0}
+var enumScale = []int{0, -60, 0, -35, 0, 60}
 
 func enumCases(pts []orb.Point, f func(c LineCase)) {
 	for j := 0; j < 6; j++ {
@@ -1330,7 +1469,7 @@ func enumCases(pts []orb.Point, f func(c LineCase)) {
 				df = "manhattan"
 			}
 			f(LineCase{Pts: gen.Pts(pts), Ring: ring, TD1: gen.F(enumTD[j]), TD2: gen.F(enumTD[j+1]), TR: gen.F(enumTD[j]), DF: df,
-				TA1: gen.F(enumTA[j%5]), TA2: gen.F(enumTA[j%5+1]), Keep: enumKeep[j], Fam: "enum"})
+				TA1: gen.F(enumTA[j%5]), TA2: gen.F(enumTA[j%5+1]), Keep: enumKeep[j], Fam: "enum", Scale: enumScale[j]})
 		}
 	}
 }
@@ -1406,7 +1545,7 @@ func TestEnumZigzag(t *testing.T) {
 		}
 		j := int(code % 5)
 		c := LineCase{Pts: gen.Pts(pts), Ring: code%2 == 1, TD1: gen.F(enumTD[j]), TD2: gen.F(enumTD[j+1]), TR: gen.F(enumTD[j+1]), DF: "planar",
-			TA1: gen.F(enumTA[j]), TA2: gen.F(enumTA[j+1]), Keep: enumKeep[j], Fam: "zigzag"}
+			TA1: gen.F(enumTA[j]), TA2: gen.F(enumTA[j+1]), Keep: enumKeep[j], Fam: "zigzag", Scale: []int{0, -45, 37}[code%3]}
 		stats.Eval("TestEnumZigzag", 1)
 		var inf info
 		stats.TryT(t, "TestEnumZigzag", c, func() error {
